@@ -112,6 +112,36 @@ def sum_of_field(an, e, container, elem):
     e = peel(e, widen=True)
     if not (e[0] == "call" and e[2] is not None):
         return False, None
+    if e[2].local and e[2].kind == "Item" and len(e[3]) == 1:
+        # a crate helper (`fn record_size(&self) -> u16`) computing the sum with an explicit loop:
+        #   acc = 0; for x in &self.<container> { acc = acc.saturating_add(x.<elem>) }; acc
+        hb = an.prog.bodies.get(e[2].path)
+        if hb is not None and hb.sccs():
+            r = peel(an.local(hb, 0))
+            members = r[1] if r[0] == "phi" else [r]
+            inits = [m for m in members if const_eval(m) == {0}]
+            steps = [peel(m) for m in members if const_eval(m) != {0}]
+            ok = len(inits) >= 1 and len(steps) == 1
+            if ok:
+                st = steps[0]
+                ok = st[0] == "call" and st[2] is not None and st[2].npath.endswith("::saturating_add") and peel(st[3][0])[0] == "cycle"
+                if ok:
+                    el = peel(st[3][1])
+                    ok = el[0] == "field" and el[2] == elem
+                    src = peel(el[1]) if ok else None
+                    ok = bool(ok and src[0] == "some" and peel(src[1])[0] == "call" and peel(src[1])[2] is not None and peel(src[1])[2].nsyn == "std::iter::Iterator::next")
+                    if ok:
+                        itx = peel(peel(src[1])[3][0], identity=())
+                        while itx[0] == "call" and itx[2] is not None and (itx[2].nsyn == "std::iter::IntoIterator::into_iter" or itx[2].npath.endswith("<impl [T]>::iter")):
+                            itx = peel(itx[3][0], identity=())
+                        ok = itx[0] == "field" and itx[2] == container and peel(itx[1]) == ("arg", 1)
+            # no iteration may skip the accumulation: inside the loop every block has one in-loop successor
+            for comp in hb.sccs():
+                cs = set(comp)
+                for blk in comp:
+                    if len([x for x in set(hb.succs(blk)) if x in cs]) > 1:
+                        ok = False
+            return bool(ok), "loop in %s: %s" % (e[2].path, canon(r)[:160])
 
     def elem_of(x, sym):
         x = peel(x)
@@ -207,7 +237,10 @@ def datatype_scrutinee_rule(ctx, an, prog, rule, path, enum_path):
         if t["k"] == "switch":
             e = an.op(b, t["op"])
             core = peel(e, casts=False)
-            ok = core[0] == "cast" and peel(core[2])[0] == "discr" and find(core, lambda n: n == ("arg", 1))
+            # `match d as u16 { 1 => .. }` or `match d { Field::A => .. }`: either way MIR switches on the declared
+            # discriminant value of the argument, i.e. on the wire number
+            ok = (core[0] == "cast" and peel(core[2])[0] == "discr" and find(core, lambda n: n == ("arg", 1))) or \
+                (core[0] == "discr" and peel(core[1]) == ("arg", 1))
             why = "scrutinee = %s" % canon(core)[:120]
             break
     ctx.ob(rule, path, "scrutinee-is-discriminant", bool(ok), why)
@@ -236,7 +269,7 @@ def _consumers(an, prog, body, blocks_pred, argmap, depth=0):
             sg = an.op(body, tt["args"][2])
             if argmap:
                 sg = an.simp(an.interp.subst(sg, argmap))
-            cons.append(("datanumber", cn(an.op(body, tt["args"][1])), const_eval(sg)))
+            cons.append(("datanumber", cn(an.op(body, tt["args"][1])), const_eval(sg), sg))
         elif c.local and "nom_derive::Parse" in c.path:
             cons.append(("enum-parser", c.path, tt["dest"]["l"], cb))
         elif c.local and c.path in prog.bodies and depth < 3 and not prog.bodies[c.path].derived and c.kind == "Item" and not c.path.startswith("<"):
@@ -245,6 +278,26 @@ def _consumers(an, prog, body, blocks_pred, argmap, depth=0):
             sub = _consumers(an, prog, hb, lambda x: True, sub_map, depth + 1)
             cons.append(("helper", c.path, sub, cn(an.op(body, tt["args"][-1]))))
     return cons
+
+
+def _resolve_signed(an, prog, c, arm_variant, adt):
+    """`signed` computed from the field type inside a shared arm (`A | B => parse(.., field_type == B)`): under the
+    arm's own variant the comparison is a constant."""
+    if c[0] == "helper":
+        return (c[0], c[1], [_resolve_signed(an, prog, x, arm_variant, adt) for x in c[2]]) + tuple(c[3:])
+    if c[0] != "datanumber" or c[2] is not None or len(c) < 4:
+        return c
+    e = peel(c[3])
+    if e[0] == "call" and e[2] is not None and e[2].nsyn in ("std::cmp::PartialEq::eq", "std::cmp::PartialEq::ne") and len(e[3]) == 2:
+        a, b2 = peel(e[3][0]), peel(e[3][1])
+        if b2 == ("arg", 2):
+            a, b2 = b2, a
+        if a == ("arg", 2) and b2[0] == "agg" and b2[1].endswith("::FieldDataType") and not b2[3]:
+            hb = prog.bodies.get(e[2].path)
+            if hb is not None and hb.derived:
+                eq = (b2[2] == arm_variant)
+                return (c[0], c[1], {1 if (eq == e[2].nsyn.endswith("::eq")) else 0}, c[3])
+    return c
 
 
 def fft_arms(an, prog):
@@ -264,6 +317,7 @@ def fft_arms(an, prog):
                     continue
                 raw = _consumers(an, prog, b, lambda x, blk=blk, tb=tb: b.edge_dominates((blk, tb), x), None)
                 cons = []
+                raw = [_resolve_signed(an, prog, c, name[0], adt) for c in raw]
                 for c in raw:
                     if c[0] == "helper":
                         if name[0] == "Unknown":
